@@ -15,6 +15,10 @@ Line-protocol driver of the catalog-construction model (`Model/Build.lean`).
   project <banned kind indices or -> <hex content> <oracle entries…>      (the composed model, `Model/Project.lean`)
      oracle entry:  s:<cur>:<len> | s:<cur>:e<pos> | e:<cur>:<len> | e:<cur>:e<pos>
   → ok <skeleton> | err <stage> <class> <index> [<body end>] | fault <kind> | miss <s|e> <cur> | skip include
+
+  projectfs <banned or -> <n> {<path hex> <content hex | DIR>}×n <oracle entries <file>:<s|e>:<cur>:<len | e<pos>>…>
+     the composed model of a project of several files (entry 0 is the root; paths are cleaned and relative to its directory)
+  → ok <skeleton> | err <file index> <stage> <class> <index> [<body end>] | fault <kind> | miss <file> <s|e> <cur>
 -/
 open JSight JSight.Gen JSight.Build
 
@@ -233,11 +237,16 @@ def faultName : Fault → String
   | .popEmpty => "popEmpty" | .indexOOR => "indexOOR" | .sliceOOR => "sliceOOR" | .nilDeref => "nilDeref"
   | .fuel => "fuel" | .libFault => "libFault" | .underflow => "underflow"
 
+def showIncFault : Project.IncFault → String
+  | .required => "required" | .badName => "badName" | .missing => "missing" | .isDirectory => "isDirectory"
+  | .recursion => "recursion" | .jsightInIncluded => "jsightInIncluded"
+
 def showProjectErr : Project.PErr → String
   | .scan i => "err scan scan " ++ toString i
   | .fault f => "fault " ++ faultName f
   | .oracleMiss e c => "miss " ++ (if e then "e" else "s") ++ " " ++ toString c
   | .includeSeen _ => "skip include"
+  | .incl k i => "err include " ++ showIncFault k ++ " " ++ toString i
   | .unknownDirective i => "err assemble unknownDirective " ++ toString i
   | .notAllowed i => "err assemble notAllowed " ++ toString i
   | .noDirective i => "err assemble noDirective " ++ toString i
@@ -269,8 +278,74 @@ def handleProject (banned : String) (content : String) (orc : List String) : Str
     | .ok c => "ok " ++ showCat c
     | .error e => showProjectErr e
 
+/-! ### projects of several files -/
+
+/-- oracle entries "<file>:<s|e>:<cur>:<len | e<pos>>" -/
+def parseOracleF (entries : List String) : Nat → Oracle :=
+  let tab : List (Nat × Bool × Nat × LenAns) := entries.filterMap fun e =>
+    match e.splitOn ":" with
+    | [f, k, cur, ans] =>
+      match f.toNat?, cur.toNat? with
+      | some f, some c =>
+        let a : Option LenAns :=
+          if ans.startsWith "e" then (ans.drop 1).toString.toNat?.map LenAns.err else ans.toNat?.map LenAns.len
+        a.map fun a => (f, k == "e", c, a)
+      | _, _ => none
+    | _ => none
+  fun f =>
+    let look (isEnum : Bool) (cur : Nat) : LenAns :=
+      match tab.find? (fun (g, k, c, _) => g == f && k == isEnum && c == cur) with
+      | some (_, _, _, a) => a
+      | none => .miss
+    { schemaLen := look false, enumLen := look true }
+
+def pasteErrId : PasteErr → Nat
+  | .annotation id | .nameMissing id | .emptyMacro id | .duplicate id | .recursion id | .notFound id | .inPaste id => id
+  | .ctx (.incorrectContext id) | .ctx (.pathMethodInExplicit id) => id
+  | _ => 0
+
+def pasteErrClass : PasteErr → String
+  | .annotation _ => "annotation" | .nameMissing _ => "nameMissing" | .emptyMacro _ => "emptyMacro"
+  | .duplicate _ => "duplicate" | .recursion _ => "recursion" | .notFound _ => "inPaste" | .inPaste _ => "inPaste"
+  | .ctx _ => "context" | .fuel => "fuel"
+
+def showFErr (n : Nat) (e : Project.FErr) : String :=
+  match e.err with
+  | .fault f => "fault " ++ faultName f
+  | .oracleMiss en c => "miss " ++ toString e.file ++ " " ++ (if en then "e" else "s") ++ " " ++ toString c
+  | .incl k i => "err " ++ toString e.file ++ " include " ++ showIncFault k ++ " " ++ toString i
+  | .paste .fuel => "fault fuel"
+  | .paste pe => "err " ++ toString e.file ++ " paste " ++ pasteErrClass pe ++ " " ++ toString (Project.idPos n (pasteErrId pe))
+  | .build be i bodyEnd => "err " ++ toString e.file ++ " build " ++ showMsg be.msg ++ " " ++ toString (Project.idPos n i) ++ " " ++ toString bodyEnd
+  | x => -- the single-file vocabulary, prefixed with the file
+    match (showProjectErr x).splitOn " " with
+    | "err" :: rest => "err " ++ toString e.file ++ " " ++ String.intercalate " " rest
+    | _ => showProjectErr x
+
+partial def parseFiles : Nat → List String → Option (Project.PFS × List String)
+  | 0, r => some ([], r)
+  | k + 1, name :: content :: r => do
+    let nm ← hx name
+    let c ← if content == "DIR" then some none else (hx content).map some
+    let (fs, r') ← parseFiles k r
+    pure ((nm, c) :: fs, r')
+  | _, _ => none
+
+def handleProjectFS (banned : String) (nfiles : String) (rest : List String) : String :=
+  let bans : List Kind := if banned == "-" then [] else (banned.splitOn ",").filterMap fun s => s.toNat?.bind fun i => Kind.all[i]?
+  match nfiles.toNat? with
+  | none => "bad-arg"
+  | some k =>
+    match parseFiles k rest with
+    | none => "bad-arg"
+    | some (fs, orc) =>
+      match Project.processFS fs (parseOracleF orc) bans with
+      | .ok c => "ok " ++ showCat c
+      | .error e => showFErr fs.length e
+
 def handle (line : String) : String :=
   match (line.splitOn " ").filter (· ≠ "") with
+  | "projectfs" :: banned :: nfiles :: rest => handleProjectFS banned nfiles rest
   | "project" :: banned :: content :: orc => handleProject banned content orc
   | "content" :: toks => handleContent toks
   | "bind" :: toks => handleBind toks
